@@ -32,7 +32,8 @@ from pyvc.repo import ClassInfo
 
 PROPERTY = "C04"
 DAO = "krrood.ormatic.dao"
-FUNCTIONS = [(DAO, "DataAccessObject.to_dao"), (DAO, "DataAccessObject.to_dao_default"), (DAO, "DataAccessObject.to_dao_if_subclass_of_alternative_mapping"),
+FUNCTIONS = [("krrood.ormatic.alternative_mappings", "FunctionMapping.create_instance"), ("krrood.ormatic.alternative_mappings", "FunctionMapping.create_from_dao"),
+             (DAO, "DataAccessObject.to_dao"), (DAO, "DataAccessObject.to_dao_default"), (DAO, "DataAccessObject.to_dao_if_subclass_of_alternative_mapping"),
              (DAO, "DataAccessObject.partition_parent_child_relationships"), (DAO, "DataAccessObject.get_columns_from"),
              (DAO, "DataAccessObject.get_relationships_from"), (DAO, "DataAccessObject._extract_single_relationship"),
              (DAO, "DataAccessObject._extract_collection_relationship"), (DAO, "DataAccessObject.from_dao"),
@@ -469,5 +470,68 @@ def h_canary():
     return Harness("canary", run, expect_fail=True)
 
 
+FUNC_SYNTH = '''
+def make(x):
+    return ("module-level", x)
+
+
+def other(x):
+    return ("other", x)
+
+
+class A:
+    @staticmethod
+    def make(x):
+        return ("A", x)
+
+
+class B:
+    @staticmethod
+    def make(x):
+        return ("B", x)
+
+    @staticmethod
+    def other(x):
+        return ("B-other", x)
+'''
+
+
+def h_function_mapping():
+    """a function is persisted as (module, owning class, name) and comes back as exactly the function found under that triple --
+    for every function, whatever was converted before (same-named functions of other classes / of the module)"""
+    def run(vm):
+        ctx = vm.ctx
+        AM = "krrood.ormatic.alternative_mappings"
+        vm.loader.add_module("pyvc_synth_c04_functions", FUNC_SYNTH)
+        from pyvc.values import ModuleVal, FuncVal
+
+        def import_module(it, fr, a, k):
+            m = it.loader.module(a[0], must=False)
+            if m is None:
+                it.raise_("ModuleNotFoundError", a[0])
+            return ModuleVal(a[0], m)
+        vm.builtins = dict(vm.builtins)
+        vm.builtins["importlib.import_module"] = Builtin("import_module", import_module)
+        FM = vm.loader.cls(AM, "FunctionMapping")
+        m = vm.loader.module("pyvc_synth_c04_functions")
+        g = lambda *path: (vm._getattr(vm._getattr(ModuleVal("pyvc_synth_c04_functions", m), path[0]), path[1]) if len(path) == 2
+                           else vm._getattr(ModuleVal("pyvc_synth_c04_functions", m), path[0]))
+        fns = [("A.make", g("A", "make"), "A"), ("B.make", g("B", "make"), "B"), ("make", g("make"), None), ("B.other", g("B", "other"), "B"), ("other", g("other"), None)]
+        vm.spec.opaque_hooks["getattr"] = lambda it, o, name: it.raise_("AttributeError", name)
+        import itertools as _it
+        for order in (fns, fns[::-1], [fns[2], fns[0], fns[1], fns[4], fns[3]]):
+            for label, f, owner in order:
+                f = f.func if hasattr(f, "func") and not isinstance(f, FuncVal) else f
+                dao = vm.call_method(FM, "create_instance", f)
+                ok_d = isinstance(dao, Obj) and dao.fields.get("module_name") == "pyvc_synth_c04_functions" and dao.fields.get("function_name") == label.split(".")[-1] \
+                    and dao.fields.get("class_name") == owner
+                ctx.check("FunctionMapping.create_instance::records-module-owning-class-and-name", z3.BoolVal(bool(ok_d)), detail=f"{label}: {dao.fields if isinstance(dao, Obj) else dao}")
+                back = vm.call_method(dao, "create_from_dao")
+                back = back.func if hasattr(back, "func") and not isinstance(back, FuncVal) else back
+                ctx.check("FunctionMapping.create_from_dao::returns-the-function-found-under-module-class-name-whatever-was-converted-before",
+                          z3.BoolVal(back is f), detail=f"{label} came back as {back!r} (order {[l for l, _, _ in order]})")
+    return Harness("function-mapping", run, spec=Spec())
+
+
 def harnesses():
-    return [h_to_dao(), h_top_level_to_dao(), h_alternative_to_dao(), h_to_dao_below_alternative_parent(), h_from_dao(), h_from_dao_alternative(), h_states(), h_is_data_column(), h_canary()]
+    return [h_function_mapping(), h_to_dao(), h_top_level_to_dao(), h_alternative_to_dao(), h_to_dao_below_alternative_parent(), h_from_dao(), h_from_dao_alternative(), h_states(), h_is_data_column(), h_canary()]
